@@ -31,9 +31,18 @@ INNER = "retrofire_core::util::buf::inner::Inner"
 BUFMOD = "retrofire_core::util::buf::"
 
 
+ANCHORS = ("to_index", "to_index_checked", "to_index_strict", "resolve_bounds", "new")
+
+
 def inner_bodies(prog):
-    return [b for b in sorted(prog.bodies.values(), key=lambda b: b.path)
-            if "util::buf" in b.path and ("inner::Inner" in b.path)]
+    """every body of `impl Inner`, with its private non-anchor helpers (a row-layout or row-range helper, say) inlined so that the index
+    expressions they compute are seen where they are used"""
+    out = []
+    for b in sorted(prog.bodies.values(), key=lambda b: b.path):
+        if "util::buf" in b.path and ("inner::Inner" in b.path):
+            out.append(prog.inlined(b, depth=2, pred=lambda cb, f=b.file: (not cb.is_pub) and cb.file == f and "inner::Inner" in cb.path
+                                    and cb.path.rsplit("::", 1)[-1] not in ANCHORS and cb.kind in ("Fn", "AssocFn")))
+    return out
 
 
 _DATA_UPVARS = set()
@@ -334,10 +343,12 @@ def r4_r5_rules(rep, prog):
         rep.violate("C11.R4", "R4|asserts", rb.where(), "resolve_bounds computes linear indices before (or without) all four range assertions l<=r<=w, t<=b<=h", config=cfg)
     # R5 callers of to_index
     callers = sorted({x.path for x in prog.bodies.values() for _bi, tt in x.calls(lambda c: c["path"] == INNER + "::<T, D>::to_index")})
-    allowed = {INNER + "::<T, D>::resolve_bounds", INNER + "::<T, D>::to_index_checked::{closure#0}"}
+    allowed_roots = (INNER + "::<T, D>::resolve_bounds", INNER + "::<T, D>::to_index_checked")
     rep.inst("C11.R5", "callers of the unchecked to_index: %s" % [c.split("Inner::<T, D>::")[-1] for c in callers], config=cfg)
     for c in callers:
-        if c not in allowed:
+        # the two checked wrappers (the function itself or a closure of it); that to_index_checked calls it for in-range coordinates only
+        # is decided by the interpretation below
+        if not any(c == r_ or c.startswith(r_ + "::{closure") for r_ in allowed_roots):
             rep.violate("C11.R5", "R5|%s" % c, prog.bodies[c].where(), "%s calls the unchecked index maths to_index directly" % c, config=cfg)
     # to_index_checked by abstract interpretation over the orderings of (x ? w) and (y ? h)
     from . import absint as A
@@ -346,6 +357,7 @@ def r4_r5_rules(rep, prog):
     names = adt["variants"][0]["fields"]
     table = {}
     ok = True
+    ok_call = True
     FULL = {"lt": {"Lt": True, "Le": True, "Ge": False, "Gt": False, "Ne": True, "Eq": False},
             "eq": {"Lt": False, "Le": True, "Ge": True, "Gt": False, "Ne": False, "Eq": True},
             "gt": {"Lt": False, "Le": False, "Ge": True, "Gt": True, "Ne": True, "Eq": False}}
@@ -371,7 +383,21 @@ def r4_r5_rules(rep, prog):
                 if not isinstance(c, int):
                     raise A.Undecided("then on undecided condition")
                 return A.some(A.UNKNOWN) if c else A.NONE
-            it = A.Interp(prog, oracle=orc, models={"bool::<impl bool>::then": m_then})
+            called = []
+
+            def m_to_index(it_, args_, callee_, depth_, called=called):
+                called.append(1)
+                return A.UNKNOWN
+
+            def m_then_run(it_, args_, callee_, depth_):
+                c_ = args_[0]
+                if not isinstance(c_, int):
+                    raise A.Undecided("then on undecided condition")
+                if c_:
+                    it_.invoke(args_[1], [], depth_)        # the closure runs (and may call to_index) only when the condition holds
+                    return A.some(A.UNKNOWN)
+                return A.NONE
+            it = A.Interp(prog, oracle=orc, models={"bool::<impl bool>::then": m_then_run, "Inner::<T, D>::to_index": m_to_index})
             inner = ("adt", INNER, "Inner", [("tuple", [("sym", "w"), ("sym", "h")]) if n2 == "dims" else A.UNKNOWN for n2 in names])
             cell = A.Frame(None)
             cell.locals[0] = inner
@@ -384,7 +410,11 @@ def r4_r5_rules(rep, prog):
             table["x%sw,y%sh" % ({"lt": "<", "eq": "=", "gt": ">"}[xr], {"lt": "<", "eq": "=", "gt": ">"}[yr])] = got
             if got != want:
                 ok = False
-    rep.inst("C11.R5", "to_index_checked over the nine orderings of (x?w, y?h): %s" % table, config=cfg)
+            if called and (xr, yr) != ("lt", "lt"):
+                ok_call = False
+    rep.inst("C11.R5", "to_index_checked over the nine orderings of (x?w, y?h): %s; the unchecked to_index runs for in-range coordinates only: %s" % (table, ok_call), config=cfg)
+    if not ok_call:
+        rep.violate("C11.R5", "R5|unchecked-call", tc.where(), "to_index_checked runs the unchecked index maths for coordinates outside x < w && y < h (its overflow checks can fire)", config=cfg)
     if not ok:
         rep.violate("C11.R5", "R5|checked-guard", tc.where(), "to_index_checked yields an index outside x < w && y < h (or none inside): %s" % table, config=cfg)
 
